@@ -707,6 +707,8 @@ impl Server for GitSyncServer {
 
     async fn add_snapshot(&mut self, version_id: VersionId, snapshot: Snapshot) -> Result<()> {
         self.reset_to_remote()?;
+        // The working tree may now hold versions added by other replicas.
+        self.read_meta()?;
         // Write the snapshot to a file.
         // If another replica has pushed a snapshot for a later version in the chain between
         // our reset_to_remote and our push, we will overwrite it. This is harmless. A replica
@@ -733,6 +735,7 @@ impl Server for GitSyncServer {
             self.git
                 .cmd(&self.local_path, &["reset", "HEAD~1", "--soft"])?;
             self.reset_to_remote()?;
+            self.read_meta()?;
             return Err(Error::Server("Couldn't push to remote.".into()));
         }
 
@@ -741,11 +744,15 @@ impl Server for GitSyncServer {
         if let Err(e) = self.cleanup() {
             log::warn!("snapshot stored but cleanup failed: {e}");
         }
+        // Cleanup may have reset to the remote state.
+        self.read_meta()?;
         Ok(())
     }
 
     async fn get_snapshot(&mut self) -> Result<Option<(VersionId, Snapshot)>> {
         self.reset_to_remote()?;
+        // The working tree may now hold versions added by other replicas.
+        self.read_meta()?;
 
         let snapshot_path = self.local_path.join("snapshot");
         if let Ok(file) = File::open(&snapshot_path) {
